@@ -272,27 +272,21 @@ where
         bit_write: &mut W,
         mut n: u64,
     ) -> Result<(), CopyError<Self::Error, W::Error>> {
-        let from_buffer = Ord::min(n, self.bits_in_buffer as _);
-        self.buffer = self.buffer.rotate_left(from_buffer as _);
+        let mut from_buffer = Ord::min(n, self.bits_in_buffer as u64) as usize;
+        n -= from_buffer as u64;
 
-        #[allow(unused_mut)]
-        let mut self_buffer_u64: u64 = self.buffer.cast();
-
-        #[cfg(feature = "checks")]
-        {
-            // Clean up in case checks are enabled
-            if n < 64 {
-                self_buffer_u64 &= (1_u64 << n) - 1;
-            }
+        // The buffer might contain more than 64 bits (after a peek), so we
+        // empty it in chunks; these reads are served by the buffer
+        while from_buffer > 0 {
+            let chunk = Ord::min(from_buffer, 64);
+            let bits = self.read_bits(chunk).map_err(CopyError::ReadError)?;
+            bit_write
+                .write_bits(bits, chunk)
+                .map_err(CopyError::WriteError)?;
+            from_buffer -= chunk;
         }
 
-        bit_write
-            .write_bits(self_buffer_u64, from_buffer as usize)
-            .map_err(CopyError::WriteError)?;
-        n -= from_buffer;
-
         if n == 0 {
-            self.bits_in_buffer -= from_buffer as usize;
             return Ok(());
         }
 
@@ -320,8 +314,10 @@ where
         bit_write
             .write_bits((new_word >> self.bits_in_buffer).upcast(), n as usize)
             .map_err(CopyError::WriteError)?;
-        self.buffer = UpcastableInto::<BB<WR>>::upcast(new_word)
-            .rotate_right(WR::Word::BITS as u32 - n as u32);
+        // put the rest in the buffer, discarding the bits just copied
+        self.buffer = (UpcastableInto::<BB<WR>>::upcast(new_word)
+            << (BB::<WR>::BITS - self.bits_in_buffer - 1))
+            << 1;
 
         Ok(())
     }
@@ -514,28 +510,21 @@ where
         bit_write: &mut W,
         mut n: u64,
     ) -> Result<(), CopyError<Self::Error, W::Error>> {
-        let from_buffer = Ord::min(n, self.bits_in_buffer as _);
+        let mut from_buffer = Ord::min(n, self.bits_in_buffer as u64) as usize;
+        n -= from_buffer as u64;
 
-        #[allow(unused_mut)]
-        let mut self_buffer_u64: u64 = self.buffer.cast();
-
-        #[cfg(feature = "checks")]
-        {
-            // Clean up in case checks are enabled
-            if n < 64 {
-                self_buffer_u64 &= (1_u64 << n) - 1;
-            }
+        // The buffer might contain more than 64 bits (after a peek), so we
+        // empty it in chunks; these reads are served by the buffer
+        while from_buffer > 0 {
+            let chunk = Ord::min(from_buffer, 64);
+            let bits = self.read_bits(chunk).map_err(CopyError::ReadError)?;
+            bit_write
+                .write_bits(bits, chunk)
+                .map_err(CopyError::WriteError)?;
+            from_buffer -= chunk;
         }
 
-        bit_write
-            .write_bits(self_buffer_u64, from_buffer as usize)
-            .map_err(CopyError::WriteError)?;
-
-        self.buffer >>= from_buffer;
-        n -= from_buffer;
-
         if n == 0 {
-            self.bits_in_buffer -= from_buffer as usize;
             return Ok(());
         }
 
